@@ -32,7 +32,7 @@ Lemma inv_kill X W D T G s e :
 Proof.
   intros Hi Hae Hf Hr Hlog Hvar Hinn Hcur Hdev Hdc Hio.
   destruct Hi as [Aheap Amem1 Amem2 Aown Afresh Atag Adead Ainner Aitag Ainj Aiown Agin Apres Adev Abuf Acur Acurinj
-                  Ahand Avars Avinj AT ATnd Alive Alognd Alog AD Acs].
+                  Ahand Avars Avinj AT ATnd Alive Alognd Alog AD Acs Apb].
   assert (Hal : forall x, upd (alive s) e false x = true -> alive s x = true /\ x <> e).
   { intros x. unfold upd. destruct (Nat.eqb_spec x e); [discriminate|tauto]. }
   assert (Hal2 : forall x, x <> e -> upd (alive s) e false x = alive s x) by (intros; now apply upd_other).
@@ -89,6 +89,7 @@ Proof.
   - intros o Hin. apply in_remove in Hin as [Hin Hne]. destruct (AD o Hin) as [A1 A2]. split; [|exact A2].
     now rewrite Hal2.
   - intros d st Ha. apply Hal in Ha as [Ha _]. now apply Acs.
+  - intros p Ha. apply Hal in Ha as [Ha _]. now apply Apb.
 Qed.
 
 Lemma inv_log X W D T G s o :
@@ -100,7 +101,7 @@ Proof.
   { intros H. apply (i_log _ _ _ _ _ _ _ Hi) in H as [_ [H|H]]; [congruence|contradiction]. }
   split; [exact Hnl|].
   destruct Hi as [Aheap Amem1 Amem2 Aown Afresh Atag Adead Ainner Aitag Ainj Aiown Agin Apres Adev Abuf Acur Acurinj
-                  Ahand Avars Avinj AT ATnd Alive Alognd Alog AD Acs].
+                  Ahand Avars Avinj AT ATnd Alive Alognd Alog AD Acs Apb].
   constructor; simpl_st; try assumption.
   - destruct Aheap. constructor; simpl_st; assumption.
   - now constructor.
@@ -115,13 +116,15 @@ Lemma inv_unW_dead X W D T G s o :
 Proof.
   intros Hi Hd.
   destruct Hi as [Aheap Amem1 Amem2 Aown Afresh Atag Adead Ainner Aitag Ainj Aiown Agin Apres Adev Abuf Acur Acurinj
-                  Ahand Avars Avinj AT ATnd Alive Alognd Alog AD Acs].
+                  Ahand Avars Avinj AT ATnd Alive Alognd Alog AD Acs Apb].
   constructor; try assumption.
   - intros p b Ha Hw. apply Ainner; [exact Ha|]. intros [<-|H]; [congruence|contradiction].
   - intros b Ha Ht Hg Hw. apply Aiown; try assumption. intros [<-|H]; [congruence|contradiction].
+  - intros p m Ha Ht Hw. apply Apres; try assumption. intros [<-|H]; [congruence|contradiction].
   - intros d Ha Ht Hw. apply Acur; try assumption. intros [<-|H]; [congruence|contradiction].
   - intros x k Ha Ht Hw. apply Alive; try assumption. intros [<-|H]; [congruence|contradiction].
   - intros d st Ha Ht Hw. apply Acs; try assumption. intros [<-|H]; [congruence|contradiction].
+  - intros p Ha Ht Hw. apply Apb; try assumption. intros [<-|H]; [congruence|contradiction].
 Qed.
 
 Lemma inv_unX_dead X W D T G s e :
@@ -129,7 +132,7 @@ Lemma inv_unX_dead X W D T G s e :
 Proof.
   intros Hi Hd [k Hk].
   destruct Hi as [Aheap Amem1 Amem2 Aown Afresh Atag Adead Ainner Aitag Ainj Aiown Agin Apres Adev Abuf Acur Acurinj
-                  Ahand Avars Avinj AT ATnd Alive Alognd Alog AD Acs].
+                  Ahand Avars Avinj AT ATnd Alive Alognd Alog AD Acs Apb].
   constructor; try assumption.
   - intros x o sl Hin. destruct (Amem1 x o sl Hin) as [H1 H2]. split; [exact H1|]. intros H. apply H2. now right.
   - intros x o sl Ha Hx. apply Amem2; [exact Ha|]. intros [<-|H]; [congruence|contradiction].
@@ -150,7 +153,7 @@ Proof.
   { destruct (Nat.lt_ge_cases m (nxt s)) as [H|H]; [exact H|].
     destruct (i_fresh _ _ _ _ _ _ _ Hi m H) as (_ & Hf & _). congruence. }
   destruct Hi as [Aheap Amem1 Amem2 Aown Afresh Atag Adead Ainner Aitag Ainj Aiown Agin Apres Adev Abuf Acur Acurinj
-                  Ahand Avars Avinj AT ATnd Alive Alognd Alog AD Acs].
+                  Ahand Avars Avinj AT ATnd Alive Alognd Alog AD Acs Apb].
   constructor; simpl_st; try assumption.
   - destruct Aheap. constructor; simpl_st; assumption.
   - intros e o sl Hin. destruct (Amem1 e o sl Hin) as [H1 H2]. split; [|exact H2].
@@ -167,20 +170,17 @@ Lemma inv_irrelevant X W D T G s s' :
   nxt s' = nxt s -> tagof s' = tagof s -> alive s' = alive s -> lft s' = lft s -> rgt s' = rgt s ->
   hptr s' = hptr s -> ohead s' = ohead s -> ouse s' = ouse s -> odev s' = odev s -> obuf s' = obuf s ->
   oinner s' = oinner s -> ocur s' = ocur s -> pres s' = pres s -> ginner s' = ginner s -> vars s' = vars s ->
-  dlog s' = dlog s ->
-  (forall e, nxt s <= e -> pslots s' e = 0) ->
+  dlog s' = dlog s -> pslots s' = pslots s ->
   inv X W D T G s'.
 Proof.
-  intros Hi H1 H2 H3 H4 H5 H6 H7 H8 H9 H10 H11 H12 H13 H14 H15 H16 Hps.
+  intros Hi H1 H2 H3 H4 H5 H6 H7 H8 H9 H10 H11 H12 H13 H14 H15 H16 H17.
   assert (Hh : forall e, home s' e = home s e) by (intros e; unfold home; now rewrite H2, H6, H9, H10, H14).
   destruct Hi as [Aheap Amem1 Amem2 Aown Afresh Atag Adead Ainner Aitag Ainj Aiown Agin Apres Adev Abuf Acur Acurinj
-                  Ahand Avars Avinj AT ATnd Alive Alognd Alog AD Acs].
-  constructor; rewrite ?H1, ?H2, ?H3, ?H6, ?H8, ?H9, ?H10, ?H11, ?H12, ?H13, ?H14, ?H15, ?H16; try assumption.
+                  Ahand Avars Avinj AT ATnd Alive Alognd Alog AD Acs Apb].
+  constructor; rewrite ?H1, ?H2, ?H3, ?H6, ?H8, ?H9, ?H10, ?H11, ?H12, ?H13, ?H14, ?H15, ?H16, ?H17; try assumption.
   - destruct Aheap as [B1 B2 B3 B4 B5 B6]. constructor; rewrite ?H3, ?H4, ?H5, ?H7; assumption.
   - intros e o sl. rewrite Hh. apply Amem1.
   - intros e o sl. rewrite Hh. apply Amem2.
-  - intros e He. destruct (Afresh e He) as (A1 & A2 & A3 & A4 & A5 & A6 & A7 & A8 & A9 & A10).
-    repeat split; try assumption. now apply Hps.
 Qed.
 
 End P.
